@@ -1,5 +1,5 @@
 """C19 — generated code is insulated from the names at the derive site."""
-import os, random, re, subprocess, time
+import json, os, random, re, subprocess, time
 from .. import common
 
 KEYWORDS = set("as break const continue crate dyn else enum extern false fn for if impl in let loop match mod move mut pub ref return self Self "
@@ -244,6 +244,89 @@ def compile_(src, out, so, extra):
     return p.returncode, errs
 
 
+def picked_names_tie(tie, rng, n):
+    """The names the generated code picks for itself (`hasher_ident`, `debug_field_ident`) against the model's `pickName`
+    (Names.lean; `pickName_fresh`, `pickName_first`): definitions whose own name and generic parameters are drawn from the
+    candidate names, expanded in-process; the hasher parameter and the wrapper struct are read off the real tokens."""
+    from .. import attr
+    NAMES = ["H", "H_", "H__", "H___", "T", "Educe__DebugField", "Educe__DebugField_", "Educe__DebugField__", "U"]
+    cases, meta = [], {}
+    for i in range(n):
+        ident = rng.choice(["S%d" % i, "S%d" % i, "Educe__DebugField", "Educe__DebugField_", "H", "H_"])
+        gens = rng.sample([x for x in NAMES if x != ident], rng.randint(0, 5))
+        params, fields = [], ["#[educe(Debug(method(m)), Hash(method(hm)))] pub x: u8"]
+        for k, g in enumerate(gens):
+            if rng.random() < 0.3:
+                params.append("const %s: usize" % g)
+                fields.append("pub f%d: [u8; %s]" % (k, g))
+            else:
+                params.append(g)
+                fields.append("pub f%d: %s" % (k, g))
+        if rng.random() < 0.25:
+            params.insert(0, "'a")
+            fields.append("pub r: &'a u8")
+        if rng.random() < 0.3:
+            # type parameters before const parameters is not required any more; any order is legal
+            lt = [p for p in params if p.startswith("'")]
+            rest = [p for p in params if not p.startswith("'")]
+            rng.shuffle(rest)
+            params = lt + rest
+            gens = [p.replace("const ", "").replace(": usize", "") for p in rest]
+        g = "<%s>" % ", ".join(params) if params else ""
+        kind = rng.choice(["struct", "enum"])
+        body = "{ %s }" % ", ".join(fields) if kind == "struct" else "{ A { %s }, B }" % ", ".join(f.replace("pub ", "") for f in fields)
+        src = "#[derive(Educe)]\n#[educe(Debug, Hash)]\npub %s %s%s %s" % (kind, ident, g, body)
+        cases.append((i, src))
+        meta[i] = (ident, gens)
+    try:
+        real = attr.expand_real(cases)
+        lines = []
+        for i, _ in cases:
+            ident, gens = meta[i]
+            lines.append(json.dumps(["pickname", "hasher", ident, gens]))
+            lines.append(json.dumps(["pickname", "debugfield", ident, gens]))
+        out = [l for l in common.run_driver(lines) if l and l[0] == "pickname"]
+    except (common.BuildError, RuntimeError) as e:
+        tie["broken"].append("picked names: " + str(e)[:300])
+        return
+    if len(out) != 2 * len(cases):
+        tie["broken"].append("picked names: the driver answered %d of %d requests" % (len(out), 2 * len(cases)))
+        return
+    moved = 0
+    for k, (i, src) in enumerate(cases):
+        r = real[i]
+        ident, gens = meta[i]
+        tie["evaluations"] += 2
+        if r.get("outcome") != "ok":
+            tie["failing"].append({"what": "a definition whose names coincide with names the generated code uses is refused", "rust_source": src,
+                                   "observed": str(r.get("message"))[:300], "expected_spec": "accepted"})
+            continue
+        toks = r.get("tokens") or ""
+        mh = re.search(r"fn hash < (\w+) :", toks)
+        md = re.search(r"struct (Educe__DebugField_*)\b", toks)
+        got = {"hasher": mh.group(1) if mh else None, "debugfield": md.group(1) if md else None}
+        for j, what in enumerate(("hasher", "debugfield")):
+            want = out[2 * k + j][-1]
+            g = got[what]
+            if g == want:
+                moved += g not in ("H", "Educe__DebugField")
+                continue
+            taken = set(gens) | ({ident} if what == "debugfield" else set())
+            item = {"what": "the generated code picks another name for its own %s than the model (`pickName`)" % ("Hasher parameter" if what == "hasher" else "Debug wrapper struct"),
+                    "rust_source": src, "observed": g, "expected_spec": want}
+            if g is None:
+                tie["broken"].append("picked names: no %s name found in the expansion" % what)
+                tie["broken_details"].append(item)
+            elif g in taken:
+                item["what"] = "the generated code picks a name that the type already uses (%s)" % what
+                tie["failing"].append(item)
+            else:
+                tie["broken"].append("picked names: implementation `%s`, model `%s`" % (g, want))
+                tie["broken_details"].append(item)
+    tie["extra"]["picked_name_cases"] = len(cases)
+    tie["extra"]["picked_names_beyond_the_first_candidate"] = moved
+
+
 def main(tier):
     t0 = time.time()
     proof = common.proof_obligations("C19")
@@ -323,6 +406,7 @@ def main(tier):
                                        "observed": (b[k] if k < len(b) else "<missing>")[:400], "expected_spec": (a[k] if k < len(a) else "<missing>")[:400]})
             else:
                 tie["distinct_nontrivial"] += 1
+    picked_names_tie(tie, rng, 150 if tier == "quick" else 1500)
     # const parameters named like a generated local or parameter (known finding on the pinned tree)
     rc_b, out_b, _ = common.run(["lake", "env", "lean", "scripts/Binders.lean"], cwd=common.LEAN, timeout=600)
     locals_ = [x for x in out_b.split() if (x[0].islower() or x[0] == "_") and x not in KEYWORDS] if rc_b == 0 else []
@@ -368,8 +452,14 @@ def main(tier):
                    "module where every identifier of the templates, the prelude names (Option, Some, None, Result, Ok, Err, Ordering, Clone, Default, "
                    "Debug, …), the primitive types, `core`/`std` and every lowercase template identifier as fn and macro_rules! mean something else; "
                    "results (==, cmp, partial_cmp, hash feed, {:?}, {:#?}, clone, default, deref, into) compared with the same definitions under neutral "
-                   "names in a plain module; the first 20 also compiled in a #![no_std] library. distinct_nontrivial = assignments that compile and agree"
-                   % len(assigns))
+                   "names in a plain module; in the hostile module every type also has inherent methods called like the trait methods (cmp, partial_cmp, "
+                   "eq, ne, clone, clone_from, hash, fmt, default, deref, deref_mut, into, ...) with other results, and every third assignment is the "
+                   "output of a macro_rules! macro whose `$x:ident` fragments are the field, variant and method names (another hygiene context than "
+                   "the `#[derive(Educe)]` in the macro body); the first 20 also compiled in a #![no_std] library; %d definitions whose own name and "
+                   "generic parameters are drawn from H, H_, H__, Educe__DebugField, Educe__DebugField_, ... expanded in-process, the hasher "
+                   "parameter and the Debug wrapper struct read off the real tokens and compared with the model's pickName (Names.lean). "
+                   "distinct_nontrivial = assignments that compile and agree"
+                   % (len(assigns), tie["extra"].get("picked_name_cases", 0)))
     tie["samples"] = assigns[:3]
     if not tie["failing"] and not tie["broken"]:
         import shutil
